@@ -1170,11 +1170,20 @@ sansScaling (const Matrix33<T>& mat, bool exc)
 
     if (!extractSHRT (mat, scl, shr, rot, tran, exc)) return mat;
 
+    //
+    // Matrix33::rotate() multiplies the rotation on the right whereas
+    // translate() and shear() multiply on the left: apply the rotation
+    // first and set the translation row last, so that the result is
+    // shear * rotation * translation (with translate() first the
+    // translation came back rotated).
+    //
+
     Matrix33<T> M;
 
-    M.translate (tran);
     M.rotate (rot);
     M.shear (shr);
+    M[2][0] = tran.x;
+    M[2][1] = tran.y;
 
     return M;
 }
@@ -1190,10 +1199,12 @@ removeScaling (Matrix33<T>& mat, bool exc)
 
     if (!extractSHRT (mat, scl, shr, rot, tran, exc)) return false;
 
+    // see sansScaling(): rotation first, translation row last
     mat.makeIdentity ();
-    mat.translate (tran);
     mat.rotate (rot);
     mat.shear (shr);
+    mat[2][0] = tran.x;
+    mat[2][1] = tran.y;
 
     return true;
 }
